@@ -7,6 +7,8 @@ from concurrent.futures import ThreadPoolExecutor
 def one(path):
     tag = "/".join(path.split("/")[-2:])
     patch = os.path.join(path, "patch.diff")
+    if os.path.exists(os.path.join(path, "patch_rebased.diff")):
+        patch = os.path.join(path, "patch_rebased.diff")      # rebased by hand onto later fix commits
     if not os.path.exists(patch):
         return tag, "no patch", {}
     S = tempfile.mkdtemp(prefix="jvref.")
@@ -15,7 +17,12 @@ def one(path):
         subprocess.run("git init -q . && git add -A >/dev/null && git -c user.email=a@b -c user.name=x commit -qm base", shell=True, cwd=S, check=True)
         r = subprocess.run(["git", "apply", patch], cwd=S, capture_output=True, text=True)
         if r.returncode != 0:
-            return tag, "patch does not apply: " + r.stderr[-200:], {}
+            # the patch was written against an earlier HEAD: three-way merge in a clone that has the blobs
+            shutil.rmtree(S, ignore_errors=True)
+            subprocess.run(["git", "clone", "-q", "--local", "/repo", S], check=True)
+            r = subprocess.run(["git", "apply", "-3", patch], cwd=S, capture_output=True, text=True)
+            if r.returncode != 0:
+                return tag, "patch does not apply: " + r.stderr[-200:], {}
         bad = {}
         for i in range(1, 21):
             pid = f"C{i:02d}"
@@ -29,7 +36,7 @@ def one(path):
         shutil.rmtree(S, ignore_errors=True)
 
 if __name__ == "__main__":
-    paths = sys.argv[1:] or sorted(glob.glob("/tmp/ref/out/*/r*"))
+    paths = sys.argv[1:] or sorted(p for p in glob.glob("/tmp/ref/out/*/r*") if os.path.isdir(p))
     with ThreadPoolExecutor(8) as ex:
         for tag, st, bad in ex.map(one, paths):
             print(tag, st, "ALL SILENT" if (st == "ok" and not bad) else "")
